@@ -41,6 +41,8 @@ func runC04(p *Prog, r *Result) {
 	checkIndexNotInlined(p, r, si, "R04f")
 	r.Rule("R04g", "every piece of syntax the lexer reads in a state where a single quote is an ordinary character is marked by the simplifier, so that nothing inside it is re-quoted with single quotes", 2)
 	checkQuoteContextsMarked(p, r, si, "R04g")
+	r.Rule("R04h", "an expansion is taken out of its double quotes only after a predicate that distinguishes quoting nodes has looked inside it", 1)
+	checkUnquoteLooksInside(p, r, si, "R04h")
 	r.Rule("R04d", "string builders used across loop iterations in the simplifier are reset on every path back to the loop head", 0)
 
 	simpT := lookupType(pkg, "simplifier")
@@ -819,6 +821,8 @@ func reachableFromAvoidingBlock(g *FGraph, b *FBlock, i int, head *FBlock, stop 
 }
 
 var c04Controls = []Control{
+	{Name: "unquote-without-looking-inside", Rule: "R04h", WantKey: "unquoteParams#w.Parts = dq.Parts looks inside", File: "syntax/simplify.go",
+		Mutate: ctlReplaceAnywhere("\tif !ok || quoteSensitive(pe) {\n", "\tif !ok || pe == nil {\n")},
 	{Name: "heredoc-body-not-marked", Rule: "R04g", WantKey: "words inside Redirect.Hdoc are not re-quoted", File: "syntax/simplify.go",
 		Mutate: ctlReplaceAnywhere("\t\t\ts.markDblQuoted(node.Hdoc)\n", "\t\t\t_ = node.Hdoc\n")},
 	{Name: "binary-expression-inside-an-index-inlined", Rule: "R04f", WantKey: "visit#BinaryArithm: inlining #1 only outside an index", File: "syntax/simplify.go",
